@@ -11,13 +11,17 @@ Files are produced by the real writers: the `save.file` command (Save.save -> Fl
 FilteredFlowWriter, and stream saving (the real Save addon driven through fixed hook sequences
 inside mitmproxy.test.taddons).  For stream saving the on-disk bytes are additionally read back
 through a second file handle after *every* hook: they must be a sequence of complete records
-holding exactly the flows finished so far.  Record boundaries and record ids are computed
+holding exactly the flows finished so far - also when save_stream_file is a strftime pattern and
+the (patched, deterministic) clock makes the expanded name change before any step of the sequence.
+ReadFile.load_flows is judged by what reaches the master's addons (a recording addon and the real
+View) through the real Master.load_flow.  Record boundaries and record ids are computed
 with an independent tnetstring framer, not with mitmproxy's.
 """
 from __future__ import annotations
 
 import asyncio
-import io
+import datetime
+import glob
 import itertools
 import logging
 import os
@@ -27,6 +31,7 @@ from mitmproxy import exceptions
 from mitmproxy import flowfilter
 from mitmproxy.addons import readfile
 from mitmproxy.addons import save
+from mitmproxy.addons import view
 from mitmproxy.io import FilteredFlowWriter
 from mitmproxy.test import taddons
 
@@ -105,6 +110,45 @@ SCENARIOS = {
 }
 KEYS = {"a": (0, 1), "b": (0, 2), "w": (1, 3), "t": (2, 4), "u": (3, 5), "d": (4, 6), "B": ("big", 7)}
 
+# time-based rotation: save_stream_file carries a strftime pattern and the (patched, deterministic) clock advances
+# at a chosen point of the hook sequence, so that the expanded file name changes between hooks.
+# "rotate@p" = the interleaved scenario with one clock tick before step p; "rotate@p,q" = two ticks.
+ROTATE_BASE = "interleaved"
+ROTATE_SUFFIX = "-%H%M"
+
+
+def scenario_steps(name):
+    if name in SCENARIOS:
+        return SCENARIOS[name]
+    if name.startswith("rotate"):
+        kind, _, pos = name.partition("@")
+        steps = list(SCENARIOS[ROTATE_BASE])
+        if kind == "rotate-append":
+            steps = [("opt", {"save_stream_file": None}), ("opt", {"save_stream_file": "+PATH"})] + steps
+        for k, p in enumerate(sorted(int(x) for x in pos.split(","))):
+            steps.insert(p + k, ("clock", 1))
+        return steps
+    raise ValueError(name)
+
+
+def scenario_names(thorough):
+    names = list(SCENARIOS)
+    n = len(SCENARIOS[ROTATE_BASE])
+    names += ["rotate@%d" % p for p in range(n)]
+    names += ["rotate-append@%d" % p for p in (range(n + 2) if thorough else (3, 6, 11))]
+    if thorough:
+        names += ["rotate@%d,%d" % (p, q) for p in range(n) for q in range(p, n)]
+    return names
+
+
+class FakeDatetime(datetime.datetime):
+    """the clock Save.maybe_rotate_to_new_file reads, owned by the scenario"""
+    minutes = 0
+
+    @classmethod
+    def today(cls):
+        return datetime.datetime(2000, 1, 1, 0, 0) + datetime.timedelta(minutes=cls.minutes)
+
 
 def matches_filter(flt, key):
     if not flt:
@@ -123,6 +167,7 @@ class StreamRun:
 
     def __init__(self, name, path):
         self.name, self.path = name, path
+        self.spec = path + (ROTATE_SUFFIX if name.startswith("rotate") else "")  # value of save_stream_file
         self.flows = {k: pool_flow(i, n) for k, (i, n) in KEYS.items()}
         self.finished: list[str] = []  # flow ids in completion order (filter applied)
         self.snap: dict[str, tuple] = {}  # id -> canon(state) at the moment it was handed to the writer
@@ -130,24 +175,49 @@ class StreamRun:
         self.flt = None
         self.saving = False
         self.stopped_with = None  # ids that the stop performed in the current step must have written (any order)
+        self.hook_exc = None  # exception that escaped the hook / option change of the current step
 
     def _finish(self, key):
         f = self.flows[key]
         self.snap[f.id] = G.canon(f.get_state())
         return f.id
 
+    def files(self):
+        """every file the stream has produced so far (one, unless the name pattern rotated)"""
+        return sorted(p for p in glob.glob(glob.escape(self.path) + "*"))
+
+    def _call(self, fn, *a, **kw):
+        try:
+            fn(*a, **kw)
+        except KeyboardInterrupt:
+            raise
+        except BaseException as e:  # noqa: B036 - incl. the SystemExit Save raises when it cannot write
+            self.hook_exc = "%s: %s" % (type(e).__name__, str(e)[:200])
+
     def run(self, observe):
+        real_datetime = save.datetime
+        FakeDatetime.minutes = 0
+        save.datetime = FakeDatetime
+        try:
+            self._run(observe)
+        finally:
+            save.datetime = real_datetime
+
+    def _run(self, observe):
         sa = save.Save()
         with taddons.context(sa) as tctx:
-            tctx.configure(sa, save_stream_file=self.path)
+            tctx.configure(sa, save_stream_file=self.spec)
             self.saving = True
             observe(self, -1, None)
-            for i, step in enumerate(SCENARIOS[self.name]):
+            for i, step in enumerate(scenario_steps(self.name)):
                 self.stopped_with = None
-                if step[0] == "opt":
+                self.hook_exc = None
+                if step[0] == "clock":
+                    FakeDatetime.minutes += step[1]
+                elif step[0] == "opt":
                     opts = dict(step[1])
                     if isinstance(opts.get("save_stream_file"), str):
-                        opts["save_stream_file"] = opts["save_stream_file"].replace("PATH", self.path)
+                        opts["save_stream_file"] = opts["save_stream_file"].replace("PATH", self.spec)
                     if "save_stream_filter" in opts:
                         self.flt = opts["save_stream_filter"]
                     if "save_stream_file" in opts:
@@ -158,7 +228,7 @@ class StreamRun:
                             self.saving = False
                         else:
                             self.saving = True
-                    tctx.configure(sa, **opts)
+                    self._call(tctx.configure, sa, **opts)
                 else:
                     key, hook = step
                     f = self.flows[key]
@@ -171,8 +241,10 @@ class StreamRun:
                             self.open.discard(key)
                         elif hook in STARTS:
                             self.open.add(key)
-                    getattr(sa, hook)(f)
+                    self._call(getattr(sa, hook), f)
                 observe(self, i, step)
+            if self.saving:
+                self._call(tctx.configure, sa, save_stream_file=None)
 
 
 def disk_bytes(path):
@@ -196,6 +268,7 @@ def make_file(spec):
     path = _scratch("w.mitm")
     if os.path.exists(path):
         os.unlink(path)
+    _cleanup(path)
     if spec["w"] == "stream":
         run = StreamRun(spec["sc"], path)
         run.run(lambda *a: None)
@@ -230,39 +303,60 @@ def make_file(spec):
 # loaders (real code)
 
 _RF: dict = {}
+_FIRST_HOOKS = ["requestheaders", "request", "responseheaders", "response", "error", "tcp_start", "tcp_end", "tcp_error",
+                "udp_start", "udp_end", "udp_error", "dns_request", "dns_response", "dns_error", "websocket_start", "websocket_end"]
+
+
+class Recorder:
+    """an addon that records every flow the master hands to its addons, in order of first appearance"""
+
+    def __init__(self):
+        self.flows = []
+
+    def _seen(self, f):
+        if not any(f is x for x in self.flows):
+            self.flows.append(f)
+
+
+for _h in _FIRST_HOOKS:
+    setattr(Recorder, _h, lambda self, flow: self._seen(flow))
 
 
 def load_readfile(path):
-    """the real ReadFile.load_flows over a real file, inside a taddons context (one per worker process)"""
+    """the real ReadFile.load_flows over a real file; the result is what reached the addons of the master
+    (a recording addon and the real View) through the real Master.load_flow"""
     if not _RF:
         _RF["loop"] = asyncio.new_event_loop()
 
         async def setup():
-            rf = readfile.ReadFile()
-            _RF["rf"], _RF["tctx"] = rf, taddons.context(rf)
+            rf, rec, vw = readfile.ReadFile(), Recorder(), view.View()
+            _RF["rf"], _RF["rec"], _RF["view"], _RF["tctx"] = rf, rec, vw, taddons.context(rf, rec, vw)
         _RF["loop"].run_until_complete(setup())
     r = G.ReadResult()
     G.reset_module_state()
-    rf, tctx = _RF["rf"], _RF["tctx"]
-
-    async def load_flow(f):
-        r.flows.append(f)
+    rf, rec, vw = _RF["rf"], _RF["rec"], _RF["view"]
+    rec.flows = []
+    vw.clear()
 
     async def go():
-        tctx.master.load_flow = load_flow
         with open(path, "rb") as fo:
             return await rf.load_flows(fo)
 
+    cnt = None
     try:
         cnt = _RF["loop"].run_until_complete(go())
-        if cnt != len(r.flows):
-            r.end, r.exc, r.msg = "other", "WrongCount", "load_flows returned %r after loading %d flows" % (cnt, len(r.flows))
     except exceptions.FlowReadException as e:
         r.end, r.exc, r.msg = "flow_read_error", "FlowReadException", str(e)
     except KeyboardInterrupt:
         raise
     except BaseException as e:  # noqa: B036
         r.end, r.exc, r.msg = "other", type(e).__name__, str(e)[:200]
+    r.flows = list(rec.flows)
+    in_view = sorted(f.id for f in vw)
+    if r.end != "other" and in_view != sorted(f.id for f in r.flows):
+        r.end, r.exc, r.msg = "other", "ViewMismatch", "addons saw %d flows, the view holds %d" % (len(r.flows), len(in_view))
+    elif cnt is not None and cnt != len(r.flows):
+        r.end, r.exc, r.msg = "other", "WrongCount", "load_flows returned %r, %d flows reached the addons" % (cnt, len(r.flows))
     return r
 
 
@@ -315,45 +409,62 @@ def _in_prefix(data, ends, o):
     return o <= colon
 
 
+def _cleanup(path):
+    for p in glob.glob(glob.escape(path) + "*"):
+        os.unlink(p)
+
+
+def _subsequence(xs, ys):
+    it = iter(ys)
+    return all(x in it for x in xs)
+
+
 def hooks_case(case, t: Tally):
-    """one scenario: re-read the on-disk file after every hook"""
+    """one scenario: re-read every on-disk stream file after every step"""
     name = case["sc"]
     path = _scratch("s.mitm")
-    if os.path.exists(path):
-        os.unlink(path)
+    _cleanup(path)
+    kind = name.split("@")[0]
 
     def observe(run: StreamRun, i, step):
-        data = disk_bytes(path)
-        feats = {"scenario": name, "after": "start" if step is None else (step[1] if step[0] != "opt" else "option-change")}
+        feats = {"scenario": kind, "after": "start" if step is None else (step[1] if step[0] not in ("opt", "clock") else {"opt": "option-change", "clock": "clock-tick"}[step[0]])}
         sub = dict(case, i=i)
-        try:
-            ends = G.record_ends(data)
-            complete = True
-        except ValueError:
-            ends, complete = [], False
-        t.judge("stream_file_holds_only_complete_records", complete, feats, sub, "a sequence of complete records", "%d bytes, not a sequence of complete records" % len(data))
-        expect = list(run.finished)
+        t.judge("hook_returns_normally", run.hook_exc is None, feats, sub, "the hook returns", run.hook_exc)
+        per_file = []  # [(path, [ids], clean?, [canon states])]
+        complete = True
+        for p in run.files():
+            data = disk_bytes(p)
+            try:
+                ends = G.record_ends(data)
+                ids = [G.tn_loads(data, s)[0].get("id") for s in ([0] + ends[:-1] if ends else [])]
+            except ValueError:
+                complete, ids = False, []
+            with open(p, "rb") as fo:
+                r = G.read(fo)
+            states = []
+            for f in r.flows:
+                states.append(G.canon(f.get_state()))
+            per_file.append((p, ids, r.end == "clean" and [f.id for f in r.flows] == ids, states, r))
+        t.judge("stream_file_holds_only_complete_records", complete, feats, sub, "every stream file is a sequence of complete records", [len(disk_bytes(p)) for p in run.files()])
+        on_disk = [i_ for _, ids, _, _, _ in per_file for i_ in ids]
         if run.stopped_with is not None:
             # records written at shutdown come in no particular order: take the order found on disk, require the same multiset
-            tail_ids = []
-            if complete and len(ends) >= len(expect):
-                starts = ([0] + ends[:-1])[len(expect):]
-                tail_ids = [G.tn_loads(data, s)[0].get("id") for s in starts]
-            t.judge("open_flows_written_at_stop", sorted(tail_ids) == sorted(run.stopped_with), feats, sub, sorted(run.stopped_with), sorted(tail_ids))
-            run.finished.extend(tail_ids if sorted(tail_ids) == sorted(run.stopped_with) else run.stopped_with)
-            expect = list(run.finished)
-        with open(path, "rb") if os.path.exists(path) else io.BytesIO(b"") as fo:
-            r = G.read(fo)
-        got_ids = [f.id for f in r.flows]
-        ok = r.end == "clean" and got_ids == expect
+            tail = [i_ for i_ in on_disk if i_ not in run.finished]
+            t.judge("open_flows_written_at_stop", sorted(tail) == sorted(run.stopped_with), feats, sub, sorted(run.stopped_with), sorted(tail))
+            run.finished.extend(tail if sorted(tail) == sorted(run.stopped_with) else run.stopped_with)
+        expect = list(run.finished)
+        ok = sorted(on_disk) == sorted(expect) and len(set(on_disk)) == len(on_disk)
+        ok = ok and all(clean and _subsequence(ids, expect) for _, ids, clean, _, _ in per_file)
         if ok:
-            ok = [G.canon(f.get_state()) for f in r.flows] == [run.snap[i_] for i_ in expect]
-        t.judge("stream_file_complete_at_every_hook_boundary", ok, feats, sub, {"end": "clean", "ids": expect}, {"end": r.end, "exc": r.exc, "ids": got_ids})
-        t.case(sub if i in (2, 5) else None, nontrivial=i >= 0, key=sub)
+            ok = all(st == [run.snap[i_] for i_ in ids] for _, ids, _, st, _ in per_file)
+        t.judge("stream_file_complete_at_every_hook_boundary", ok, feats, sub, {"end": "clean", "ids": expect},
+                [{"file": os.path.basename(p)[-12:], "end": r.end, "exc": r.exc, "ids": ids} for p, ids, _, _, r in per_file])
+        t.case(sub if i in (2, 5) and kind != "rotate" else None, nontrivial=i >= 0, key=sub)
 
-    StreamRun(name, path).run(observe)
-    if os.path.exists(path):
-        os.unlink(path)
+    try:
+        StreamRun(name, path).run(observe)
+    finally:
+        _cleanup(path)
 
 
 def one(case, t: Tally):
@@ -393,22 +504,24 @@ def file_specs(thorough):
         out.append(({"w": "filtered-matchall", "s": [i]}, ["reader"]))
     pair_pool = range(n) if thorough else [0, 1, 2, 4]  # quick: udp (same shape as tcp) only in single-flow files
     for s in itertools.product(pair_pool, repeat=2):
-        out.append(({"w": "save.file", "s": list(s)}, ["reader", "readfile"] if thorough and s[0] < 5 and s[1] < 5 else ["reader"]))
+        both = (s[0] < 5 and s[1] < 5) if thorough else (s[0] in (0, 2, 4) and s[1] in (0, 2, 4))
+        out.append(({"w": "save.file", "s": list(s)}, ["reader", "readfile"] if both else ["reader"]))
     if thorough:
         # three flows: every ordered choice of three distinct types, and three flows of the same type
         for s in list(itertools.permutations(range(5), 3)) + [(i, i, i) for i in range(5)]:
             out.append(({"w": "save.file" if sum(s) % 2 else "filtered", "s": list(s)}, ["reader"]))
-    for sc in SCENARIOS:
+    for sc in SCENARIOS:  # (rotation scenarios produce several files; they are judged at the hook boundaries only)
         if sc == "big-record" and not thorough:
             continue
-        out.append(({"w": "stream", "sc": sc}, ["reader"]))
+        out.append(({"w": "stream", "sc": sc}, ["reader", "readfile"] if thorough or sc in ("sequential", "interleaved", "open-at-stop") else ["reader"]))
     return out
 
 
 def run(ctx):
     thorough = ctx.thorough
     logging.disable(logging.CRITICAL)
-    cases = [{"k": "hooks", "sc": sc} for sc in SCENARIOS]
+    names = scenario_names(thorough)
+    cases = [{"k": "hooks", "sc": sc} for sc in names]
     nfiles = 0
     try:
         for spec, loaders in file_specs(thorough):
@@ -421,14 +534,17 @@ def run(ctx):
         logging.disable(logging.NOTSET)
         shutil.rmtree(SCRATCH, ignore_errors=True)
     ctx.log("%d files (%d stream-saved), %d truncation cases, %d hook scenarios with %d hook boundaries" % (
-        nfiles, len([s for s, _ in file_specs(thorough) if s["w"] == "stream"]), len(cases) - len(SCENARIOS), len(SCENARIOS),
-        sum(len(v) + 1 for v in SCENARIOS.values())))
+        nfiles, len([s for s, _ in file_specs(thorough) if s["w"] == "stream"]), len(cases) - len(names), len(names),
+        sum(len(scenario_steps(n)) + 1 for n in names)))
     ctx.bounds = {
         "flow_pool": ["%s%s" % (t, d or "") for t, d in POOL], "max_flows_per_file": 3 if thorough else 2,
         "pair_pool": 8 if thorough else 4, "triples": "ordered triples of distinct base types + homogeneous triples (65 files)" if thorough else "none",
         "writers": ["save.file", "FilteredFlowWriter(None)", "FilteredFlowWriter(~all)", "Save addon stream"],
         "loaders": ["FlowReader on a real file", "ReadFile.load_flows"], "truncation": "every offset 0..len",
         "hook_scenarios": {k: len(v) for k, v in SCENARIOS.items()}, "files": nfiles,
+        "rotation_scenarios": "clock tick (strftime name change) before every step of the interleaved scenario%s; append mode at %s positions" % (
+            " and every pair of positions" if thorough else "", "all" if thorough else "3"),
+        "hook_scenarios_total": len(names),
     }
     ctx.info["files"] = nfiles
     try:
